@@ -61,7 +61,8 @@ def build():
     # arguments that are expressions over the first cell (counted by their value, not as references)
     EXPR = [('expr-compare', 'C!A1=3', lambda v: [bool(v == 3) if isinstance(v, (int, float)) and not isinstance(v, bool) else False]),
             ('expr-plus', 'C!A1+1', lambda v: [v + 1] if not isinstance(v, bool) and isinstance(v, (int, float)) else None),
-            ('expr-bracket', '(C!A1)', None), ('expr-neg', '-C!A1', lambda v: [-v] if not isinstance(v, bool) and isinstance(v, (int, float)) else None)]
+            ('expr-bracket', '(C!A1)', lambda v: [v] if isinstance(v, (int, float, DT)) else None),
+            ('expr-if', 'IF(TRUE,C!A1,0)', lambda v: [v] if isinstance(v, (int, float, DT)) else None), ('expr-neg', '-C!A1', lambda v: [-v] if not isinstance(v, bool) and isinstance(v, (int, float)) else None)]
     global EXPR_FORMS
     EXPR_FORMS = {name: fn for name, _, fn in EXPR}
     r = 1
@@ -149,6 +150,9 @@ def judge(vec, entries, outs, src, stats, i, vio):
             ev = EXPR_FORMS[form](vec[0])
             if ev is None or (isinstance(ev[0], bool) and fn != 'COUNT'):
                 stats['x:not_judged'] += 1
+                continue
+            if isinstance(ev[0], DT) and fn != 'COUNT':
+                stats['x:not_judged'] += 1     # a date-valued scalar in SUM / MAX: the recorded date finding's territory
                 continue
             scalars = list(scalars) + ([0] if fn == 'COUNT' else ev)   # a counted value / the number itself
         want = expected(fn, vals, scalars)
